@@ -313,7 +313,46 @@ def gen_c20():
     return rel
 
 
-GROUPS = {"C20": gen_c20, "C17": gen_c17, "C16": gen_c16, "C06": gen_c06, "C08": gen_c08}
+# ------------------------------------------------------------------------------------------ C19: the regular expressions
+
+# the source text of the three regular expressions the matchers of coq/C19/Model.v were written (and proved) for
+C19_PINNED = {
+    "diff_pattern": 'r"^\\+\\+\\+\\s(?:.*?/){{{skip_prefix}}}(\\S*)"',
+    "lines_pattern": 'r"^@@ -\\d+(?:,\\d+)? \\+(\\d+)(,(\\d+))?"',
+    "file_filter": '"^{file_filter}$"',
+}
+
+
+def gen_c19():
+    rel = "Gen/C19/DiffRe.v"
+    try:
+        import re as _re
+        src = open(os.path.join(common.REPO, "src/format-diff/main.rs")).read()
+        found = {}
+        m = _re.search(r'let diff_pattern = format!\((r"[^"]*")\);', src)
+        found["diff_pattern"] = m.group(1) if m else None
+        m = _re.search(r'let lines_pattern = Regex::new\((r"[^"]*")\)', src)
+        found["lines_pattern"] = m.group(1) if m else None
+        m = _re.search(r'let file_filter = Regex::new\(&format!\(("[^"]*")\)\)', src)
+        found["file_filter"] = m.group(1) if m else None
+        if src.count("Regex::new") != 3:
+            raise R.Unsupported("format-diff/main.rs builds %d regular expressions, the model knows 3" % src.count("Regex::new"))
+
+        def coqstr(x):
+            return '"%s"' % (x or "<not found>").replace('"', '""')
+        out = [HEADER % (rel, "src/format-diff/main.rs"), "From Coq Require Import String List.", "Import ListNotations.", "Open Scope string_scope.", "",
+               "(* the source text of the regular expressions as they are in the code NOW *)",
+               "Definition re_now : list (string * string) := [%s]." % "; ".join("(%s, %s)" % (coqstr(k), coqstr(found[k])) for k in sorted(C19_PINNED)),
+               "(* ... and as they were when the matchers file_hdr / hunk_hdr of coq/C19/Model.v were written and scan_render was proved *)",
+               "Definition re_modelled : list (string * string) := [%s]." % "; ".join("(%s, %s)" % (coqstr(k), coqstr(C19_PINNED[k])) for k in sorted(C19_PINNED)),
+               _theorem("tie_regexes_unchanged", "re_now = re_modelled", [], "reflexivity.")]
+        _write(rel, "\n".join(out))
+    except (R.Unsupported, AssertionError, KeyError, IndexError, ValueError) as e:
+        _failed(rel, "diff_regexes", e)
+    return rel
+
+
+GROUPS = {"C19": gen_c19, "C20": gen_c20, "C17": gen_c17, "C16": gen_c16, "C06": gen_c06, "C08": gen_c08}
 
 
 def gen_all():
